@@ -2,6 +2,8 @@ package actions_test
 
 import (
 	"bytes"
+	"context"
+	stded25519 "crypto/ed25519"
 	"encoding/binary"
 	"fmt"
 	"testing"
@@ -11,6 +13,8 @@ import (
 	"github.com/ava-labs/hypersdk/auth"
 	"github.com/ava-labs/hypersdk/chain"
 	"github.com/ava-labs/hypersdk/codec"
+	"github.com/ava-labs/hypersdk/crypto/bls"
+	"github.com/ava-labs/hypersdk/crypto/ed25519"
 	"github.com/ava-labs/hypersdk/examples/morpheusvm/actions"
 	"github.com/ava-labs/hypersdk/internal/verifh"
 	"github.com/ava-labs/hypersdk/utils"
@@ -44,6 +48,21 @@ func TestVerifC15Morpheus(t *testing.T) {
 			copy(tr.To[:], g.Bytes(33))
 			return tr
 		}
+		// real BLS auths (145 bytes: two-byte length prefix); UnmarshalBLS needs valid points
+		var blsAuths [][]byte
+		for i := 0; len(blsAuths) < 4; i++ {
+			seed := g.Bytes(32)
+			seed[0] = byte(i % 64)
+			sk, err := bls.PrivateKeyFromBytes(seed)
+			if err != nil {
+				continue
+			}
+			sig, err := bls.Sign(g.Bytes(16), sk)
+			if err != nil {
+				t.Fatal(err)
+			}
+			blsAuths = append(blsAuths, (&auth.BLS{Signer: bls.PublicFromPrivateKey(sk), Signature: sig}).Bytes())
+		}
 		mkAuth := func() []byte {
 			switch g.Intn(3) {
 			case 0:
@@ -51,7 +70,7 @@ func TestVerifC15Morpheus(t *testing.T) {
 			case 1:
 				return append([]byte{auth.SECP256R1ID}, g.Bytes(auth.SECP256R1Size-1)...)
 			default:
-				return append([]byte{auth.ED25519ID}, g.Bytes(auth.ED25519Size-1)...)
+				return append([]byte{}, blsAuths[g.Intn(len(blsAuths))]...)
 			}
 		}
 		add := func(base chain.Base, acts [][]byte, au []byte) {
@@ -66,6 +85,35 @@ func TestVerifC15Morpheus(t *testing.T) {
 		// corpus first: Transfer ++ junk
 		add(base0, [][]byte{append(append([]byte{}, tr0...), 0xff, 0xee)}, mkAuth())
 		add(base0, [][]byte{tr0}, mkAuth())
+		for _, ba := range blsAuths { // auth field >= 128 bytes
+			add(base0, [][]byte{tr0}, ba)
+			add(base0, [][]byte{tr0, tr0}, append(append([]byte{}, ba...), 0))
+		}
+		// honestly signed transactions, one per auth type and action count
+		{
+			var edk ed25519.PrivateKey
+			copy(edk[:], stded25519.NewKeyFromSeed(g.Bytes(32)))
+			bseed := g.Bytes(32)
+			bseed[0] = 1
+			bk, err := bls.PrivateKeyFromBytes(bseed)
+			if err != nil {
+				t.Fatal(err)
+			}
+			for _, fac := range []chain.AuthFactory{auth.NewED25519Factory(edk), auth.NewBLSFactory(bk)} {
+				for n := 1; n <= 3; n++ {
+					acts := make([]chain.Action, n)
+					for j := range acts {
+						acts[j] = mkTransfer()
+					}
+					td := chain.NewTxData(base0, acts)
+					stx, err := td.Sign(fac)
+					if err != nil {
+						t.Fatal(err)
+					}
+					lines = append(lines, "stx "+verifh.Hex(stx.Bytes()))
+				}
+			}
+		}
 		for i := 0; i < r.N(600, 20000); i++ {
 			base := chain.Base{Timestamp: int64(g.Pick64()), MaxFee: g.Pick64()}
 			copy(base.ChainID[:], g.Bytes(32))
@@ -94,7 +142,7 @@ func TestVerifC15Morpheus(t *testing.T) {
 	}
 	for _, l := range lines {
 		f := verifh.Fields(l)
-		if len(f) != 2 || f[0] != "tx" {
+		if len(f) != 2 || (f[0] != "tx" && f[0] != "stx") {
 			r.Emit(l, "bad-op")
 			continue
 		}
@@ -120,6 +168,9 @@ func TestVerifC15Morpheus(t *testing.T) {
 				}
 			}
 		}
+		if rb := tx.Auth.Bytes(); key == "tx-reencode-differs" && len(rb) < len(stx.Auth) && bytes.HasPrefix(stx.Auth, rb) {
+			key = "auth-trailing-bytes"
+		}
 		if !bytes.Equal(re.Bytes(), b) {
 			r.Violation(key, "morpheusvm parser: accepted tx %x re-encodes as %x", b, re.Bytes())
 		}
@@ -131,11 +182,23 @@ func TestVerifC15Morpheus(t *testing.T) {
 		want = append(want, 0x1a)
 		want = binary.AppendUvarint(want, uint64(len(tx.Auth.Bytes())))
 		want = append(want, tx.Auth.Bytes()...)
-		if !bytes.Equal(body.UnsignedBytes(), tx.UnsignedBytes()) || !bytes.Equal(want, b) {
-			if key == "tx-reencode-differs" {
-				key = "signed-not-body-plus-auth"
+		trailing := key == "action-trailing-bytes" || key == "auth-trailing-bytes"
+		if !bytes.Equal(body.UnsignedBytes(), tx.UnsignedBytes()) {
+			if !trailing {
+				key = "unsigned-not-body"
 			}
 			r.Violation(key, "tx %x: signed message %x is not the body encoding %x", b, tx.UnsignedBytes(), body.UnsignedBytes())
+		} else if !bytes.Equal(want, b) {
+			if !trailing {
+				key = "signed-not-body-plus-auth"
+			}
+			r.Violation(key, "tx %x is not body ++ auth field", b)
+		}
+		// an honestly signed transaction (op `stx`) still verifies after being parsed
+		if f[0] == "stx" {
+			if err := tx.VerifyAuth(context.Background()); err != nil {
+				r.Violation("signed-tx-fails-verify", "honestly signed tx %x does not verify after parsing: %v", b, err)
+			}
 		}
 	}
 	_ = fmt.Sprint
